@@ -123,8 +123,7 @@ HistStep ==
                    ELSE fails \cup {Fail(l, "C16.history_dependent",
                                          [op |-> c.op, ty |-> c.ty.k,
                                           now |-> (IF IsExc(T.res[l]) THEN T.res[l].exc ELSE "value"),
-                                          fresh |-> (IF IsExc(T.base[l]) THEN T.base[l].exc ELSE "value"),
-                                          hooks_before |-> Cardinality(hooks)])}
+                                          fresh |-> (IF IsExc(T.base[l]) THEN T.base[l].exc ELSE "value")])}
        \* drift: the registry model's prediction for this call
        /\ ndrift' = ndrift + (IF IsExc(T.res[l]) THEN (IF IsErr(last'.res) THEN 0 ELSE 1)
                               ELSE IF c.op = "S" THEN (IF T.res[l] = last'.res THEN 0 ELSE 1)
